@@ -96,6 +96,35 @@ def run(run: Run):
     for i in bad:
         name, rp = meta[i]
         run.violation(f"generator bytes differ from the documented derivation ({name})", rp)
+    # (4c) "... and the compressed forms handed to the transcript are the encodings of those same points": EVERY generator a parameter object carries
+    # reaches the transcript — a statement whose k-th blinding generator (or H) is another point, its commitments being the same points, must not
+    # accept the proof, for every extension degree and every k; the transcript operations are compared with the Coq model as well
+    from lib import gen, sessions
+    tspecs = []
+    for T in range(1, 7):
+        mem = gen.mk_member(rng, 2, 1 if T % 2 else 2, T=T, ctx={"label": "c11-t"})
+        verifies, tags = [{"mode": "VerifyOnly", "vmembers": [gen.vmember(mem, 0)]}], [("base", True)]
+        for tag, over in [("H", {"h_scale": gen.hx(2)})] + [(f"Gb{k}", {"gb_scale": [k, gen.hx(3)]}) for k in range(T)]:
+            st = gen.stmt_of(mem, **over)
+            st["commit"] = [{"open_std": c} for c in st["commit"]]
+            verifies.append({"mode": "VerifyOnly", "vmembers": [{"proof": 0, "stmt": st, "ctx": mem["ctx"]}]})
+            tags.append((tag, False))
+        # ... and with ONLY the compressed form another point (the equation's points untouched): refused iff that encoding reaches the transcript
+        for tag, over in [("H (compressed form only)", {"hc_scale": gen.hx(2)})] + [(f"Gb{k} (compressed form only)", {"gbc_scale": [k, gen.hx(3)]}) for k in range(T)]:
+            verifies.append({"mode": "VerifyOnly", "vmembers": [gen.vmember(mem, 0, **over)]})
+            tags.append((tag, False))
+        tspecs.append({"id": f"c11-t{T}", "group": "fm", "members": [mem], "verifies": verifies, "_tags": tags, "_T": T, "with_gens": False, "_no_embed": True, "_no_modes": True})
+
+    def t_oracle(run, s, o):
+        for vi, ((tag, want_ok), vo) in enumerate(zip(s["_tags"], o["verifies"])):
+            run.count(["gens-in-transcript", s["_T"], tag, vo["result"].split(":")[0]], {"check": "every generator reaches the transcript", "T": s["_T"], "generator": tag})
+            run.bump("generator-binding cases")
+            if want_ok and vo["result"] != "ok":
+                run.violation(f"honest proof refused (T={s['_T']}): {vo['result'][:80]}", {"kind": "session", "spec": sessions.strip(s)})
+            if not want_ok and vo["result"] == "ok":
+                run.violation(f"proof accepted under a statement whose generator {tag} is another point (extension degree {s['_T']}): that generator's encoding never reaches the transcript",
+                              {"kind": "session", "spec": sessions.strip(s), "verify": vi})
+    sessions.run_sessions(run, tspecs, t_oracle, relevant=16 | 128, name="c11t")
     # (4a) party indices beyond one byte (a 512-party parameter set)
     from lib import gens_hi
     gens_hi.check_high_parties(run, quick, "c11hi")
